@@ -277,6 +277,15 @@ def run(run):
                 call("from_path(edge_path, autocomplete)", kind, N,
                      lambda: ct.ContractionTree.from_path(inputs, output, size, edge_path=ixs, autocomplete=True),
                      inputs, output, size, "tree")
+            if ixs:
+                # the older spelling of the same constructor, defaults as they are
+                import warnings
+
+                def _alias():
+                    with warnings.catch_warnings():
+                        warnings.simplefilter("ignore")
+                        return ct.ContractionTree.from_edge_path(ixs, inputs, output, size)
+                call("from_edge_path(edge_path) [alias, defaults]", kind, N, _alias, inputs, output, size, "tree")
             if len(lin) > 1:
                 call("from_path(incomplete path, autocomplete)", kind, N,
                      lambda: ct.ContractionTree.from_path(inputs, output, size, path=lin[:-1], autocomplete=True),
